@@ -235,6 +235,25 @@ def during_scan(ctx, i, log):
                     ctx.violation({"kind": "scan-did-not-complete"},
                                   {"threads": threads_state(srv.p.pid)[:20], "stderr": srv.stderr_text()[-800:]}, files=ws.files)
                     return
+        # ---- bursts: several notifications for one document (with an undeclared-fixture finding) and requests for it leave
+        # the editor in one write; every request must come back
+        bf = os.path.join(root, "test_burst_doc.py")
+        any_name = (ws.spec.get("names") or ["fx_a"])[0]
+        btxt = f"def test_burst():\n    v = {any_name}\n    return {any_name}\n"
+        before = srv.seq
+        srv.did_open(bf, btxt)
+        srv.wait_diagnostics(bf, before, timeout=WATCHDOG)
+        for rep in range(3):
+            with srv.batch():
+                for k_ in range(6):
+                    srv.did_change(bf, btxt + f"# {rep}.{k_}\n" + ("" if k_ % 2 else f"def test_more_{k_}():\n    return {any_name}\n"))
+            for r in (srv.hover(bf, 1, 9, timeout=WATCHDOG), srv.document_symbol(bf, timeout=WATCHDOG)):
+                ctx.judged()
+                if not r["answered"]:
+                    ctx.violation({"kind": "request-unanswered", "method": r["method"], "phase": "after_notification_burst"},
+                                  {"threads": threads_state(srv.p.pid)[:20], "stderr": srv.stderr_text()[-800:], "exit": srv.p.poll()})
+                    return
+        ctx.nontrivial(("notification_burst", i % 2))
         ctx.count("server_sessions")
     finally:
         answered, rc, err = srv.shutdown()
@@ -268,6 +287,20 @@ def cyclic_inputs(ctx, vh, quick, log):
                 files[f"m{i}.py"] = imp + HDR + fx(f"c{i}")
             files["conftest.py"] = "from .m0 import *\n"
             cases[f"import_cycle_{n}_{kind}"] = files
+    # --- the same cycles among the modules of a pytest11 plugin (site-packages and in-workspace editable) ------------
+    sp = ".venv/lib/python3.12/site-packages"
+    for where in ("site", "editable"):
+        for kind in ("star", "plugins", "self"):
+            base = f"{sp}/cycplug" if where == "site" else "cycplug"
+            imp_ab = {"star": "from .beta import *\n", "plugins": 'pytest_plugins = ["cycplug.beta"]\n', "self": "from .alpha import *\nfrom .beta import *\n"}[kind]
+            imp_ba = {"star": "from .alpha import *\n", "plugins": 'pytest_plugins = ["cycplug.alpha"]\n', "self": "from .beta import *\nfrom .alpha import *\n"}[kind]
+            files = {f"{base}/__init__.py": "from .alpha import *\n", f"{base}/alpha.py": imp_ab + HDR + fx("pa"), f"{base}/beta.py": imp_ba + HDR + fx("pb"),
+                     f"{sp}/cycplug-1.0.dist-info/entry_points.txt": "[pytest11]\ncyc = cycplug.alpha\ncyc2 = cycplug\n",
+                     ".venv/pyvenv.cfg": "home = /usr/bin\n", "conftest.py": HDR + fx("a"), "test_x.py": "def test_x(pa, pb, a):\n    pass\n"}
+            if where == "editable":
+                files[f"{sp}/cycplug-1.0.dist-info/direct_url.json"] = '{"url": "file://@ROOT@", "dir_info": {"editable": true}}'
+                files[f"{sp}/__editable__.cycplug-1.0.pth"] = "@ROOT@\n"
+            cases[f"plugin_import_cycle_{where}_{kind}"] = files
     # --- dependency graphs --------------------------------------------------------------------------------
     n = 14
     names = [f"k{i}" for i in range(n)]
@@ -294,9 +327,8 @@ def cyclic_inputs(ctx, vh, quick, log):
                                      deep + "/test_x.py": "def test_x(top):\n    pass\n"}
     for cname, files in cases.items():
         root = ctx.scratch("cyc")
+        files = {k: v.replace("@ROOT@", root) for k, v in files.items()}
         write_tree(root, files)
-        if cname == "deep_directory_chain":
-            pass
         # a symlink loop in every case directory: the walk must not follow it forever
         try:
             os.symlink(root, os.path.join(root, "loop"))
@@ -306,7 +338,8 @@ def cyclic_inputs(ctx, vh, quick, log):
             db = vh.new_db()
             call(ctx, vh, f"scan:{cname}", dict(op="scan", db=db, root=root))
             for rel, text in files.items():
-                call(ctx, vh, f"analyze:{cname}", dict(op="analyze", db=db, path=os.path.join(root, rel), text=text))
+                if rel.endswith(".py"):
+                    call(ctx, vh, f"analyze:{cname}", dict(op="analyze", db=db, path=os.path.join(root, rel), text=text))
             r = call(ctx, vh, f"snapshot:{cname}", dict(op="snapshot", db=db))
             call(ctx, vh, f"cycles:{cname}", dict(op="cycles", db=db))
             call(ctx, vh, f"imported:{cname}", dict(op="imported", db=db, path=os.path.join(root, "conftest.py")))
